@@ -140,6 +140,7 @@ type inProcessTransportListener struct {
 	addr       InProcessAddr
 	transports chan *inProcessTransport
 	done       chan bool
+	closing    chan struct{} // closing is closed when the listener is closed, for releasing the pending connections
 	closed     bool
 	closedMu   sync.RWMutex
 }
@@ -149,6 +150,7 @@ func NewInProcessTransportListener(addr InProcessAddr) TransportListener {
 		addr:       addr,
 		transports: make(chan *inProcessTransport, 1),
 		done:       make(chan bool, 1),
+		closing:    make(chan struct{}),
 	}
 	return l
 }
@@ -157,9 +159,27 @@ func (l *inProcessTransportListener) Close() error {
 	l.closedMu.Lock()
 	defer l.closedMu.Unlock()
 	delete(inProcListeners, l.addr)
-	l.closed = true
-	l.done <- true
+	if !l.closed {
+		l.closed = true
+		close(l.closing)
+		l.done <- true
+	}
+
+	l.closePendingTransports()
 	return nil
+}
+
+// closePendingTransports closes the connections that were not accepted,
+// otherwise their clients would wait forever to be served.
+func (l *inProcessTransportListener) closePendingTransports() {
+	for {
+		select {
+		case t := <-l.transports:
+			_ = t.Close()
+		default:
+			return
+		}
+	}
 }
 
 func (l *inProcessTransportListener) Listen(_ context.Context, addr net.Addr) error {
@@ -206,7 +226,16 @@ func (l *inProcessTransportListener) newClient(addr InProcessAddr, bufferSize in
 	// Create transport pair
 	client, server := newInProcessTransportPair(addr, bufferSize)
 	go func() {
-		l.transports <- server
+		select {
+		case l.transports <- server:
+			if !l.listening() {
+				// The listener was closed meanwhile and may have missed this connection
+				l.closePendingTransports()
+			}
+		case <-l.closing:
+			// The listener was closed before accepting the connection
+			_ = server.Close()
+		}
 	}()
 	return client
 }
